@@ -117,7 +117,7 @@ def run(ctx, chk):
         chk.violation("C14.R1", "int", "int-set", f"assembler accepts int {sorted(ints)}; the documented set is [3, 16, 33]", GA.g["file"])
     for k, p in enumerate(GA.productions("int")):
         paths = E.prod_paths("int", k)
-        if any(not succeeds(q) and not emits(q) for q in paths) and all(any("n ==" in c[0] or "==" in c[0] for c in q.conds) for q in paths if succeeds(q)):
+        if any(not succeeds(q) and not emits(q) for q in paths) and all(any(re.search(r"==|\bmatches\b|\.contains\(", c[0]) for c in q.conds) for q in paths if succeeds(q)):
             chk.ok("C14.R1", "int:reject", "other numbers -> error!")
         else:
             chk.violation("C14.R1", "int", "int-not-rejected", "an unsupported interrupt number is not rejected", GA.g["file"])
